@@ -30,16 +30,24 @@ func (pConn *PFCPConn) handleSessionEstablishmentRequest(msg message.Message) (m
 
 	errUnmarshalReply := func(err error, offendingIE *ie.IE) (message.Message, error) {
 		// Build response message
+		ies := []*ie.IE{ie.NewCause(ie.CauseRequestRejected)}
+		if offendingIE != nil {
+			ies = append(ies, offendingIE)
+		}
+
 		pfdres := message.NewSessionEstablishmentResponse(0,
 			0,
 			0,
 			sereq.SequenceNumber,
 			0,
-			ie.NewCause(ie.CauseRequestRejected),
-			offendingIE,
+			ies...,
 		)
 
 		return pfdres, errUnmarshal(err)
+	}
+
+	if sereq.NodeID == nil || sereq.CPFSEID == nil {
+		return errUnmarshalReply(errMandatoryIEMissing, nil)
 	}
 
 	nodeID, err := sereq.NodeID.NodeID()
